@@ -2,6 +2,7 @@
 package main
 
 import (
+	"verif/internal/lab"
 	"fmt"
 	"os"
 	"os/signal"
@@ -174,6 +175,10 @@ func run(scratch string) int {
 		}
 	}
 	r.Set("plugin_runs", pluginRuns)
+	if n := lab.DecoyRuns.Load(); n > 0 {
+		r.Set("plugin_invocations_preceded_by_a_decoy_twin", n)
+		r.Set("decoy_invocations_refused_then_run_plain", lab.DecoyFallbacks.Load())
+	}
 	r.Set("passes", passes)
 	r.Set("pass_seeds", passSeeds)
 	return r.Finish()
